@@ -5,6 +5,8 @@ package quic
 import (
 	"context"
 	"errors"
+	"fmt"
+	"net"
 	"time"
 
 	"github.com/refraction-networking/uquic/internal/ackhandler"
@@ -13,6 +15,7 @@ import (
 	"github.com/refraction-networking/uquic/internal/protocol"
 	"github.com/refraction-networking/uquic/internal/utils"
 	"github.com/refraction-networking/uquic/internal/wire"
+	tls "github.com/refraction-networking/utls"
 )
 
 // Exporters for the C04 caller-level driver (flowcall). Add-only.
@@ -83,6 +86,46 @@ func VerifFCNewConn(client bool, conf *Config) *VerifFCConn {
 	)
 	c.preSetup()
 	return &VerifFCConn{C: c}
+}
+
+type verifFCSendConn struct{}
+
+func (verifFCSendConn) Write([]byte, uint16, protocol.ECN) error { return nil }
+func (verifFCSendConn) WriteTo([]byte, net.Addr) error           { return nil }
+func (verifFCSendConn) Close() error                             { return nil }
+func (verifFCSendConn) LocalAddr() net.Addr                      { return &net.UDPAddr{IP: net.IPv4(10, 0, 0, 1), Port: 1} }
+func (verifFCSendConn) RemoteAddr() net.Addr                     { return &net.UDPAddr{IP: net.IPv4(10, 0, 0, 2), Port: 2} }
+func (verifFCSendConn) ChangeRemoteAddr(net.Addr, packetInfo)    {}
+func (verifFCSendConn) capabilities() connCapabilities           { return connCapabilities{} }
+
+// VerifFCNewUConn builds a spec-driven client with the REAL newUClientConnection (the spec's transport
+// parameters are what is advertised; configCoveringAdvertised + preSetup decide what is enforced). The
+// handshake is never started; the driver delivers the peer's parameters with PeerParameters.
+func VerifFCNewUConn(spec *QUICSpec, conf *Config) (v *VerifFCConn, err error) {
+	defer func() {
+		if e := recover(); e != nil {
+			v, err = nil, fmt.Errorf("newUClientConnection panicked: %v", e)
+		}
+	}()
+	w := newUClientConnection(
+		context.Background(),
+		verifFCSendConn{},
+		verifFCRunner{},
+		verifFCDestConnID,
+		verifFCSrcConnID,
+		&protocol.DefaultConnectionIDGenerator{ConnLen: verifFCSrcConnID.Len()},
+		newStatelessResetter(nil),
+		populateConfig(conf),
+		&tls.Config{ServerName: "verif.example", NextProtos: []string{"h3"}},
+		0,
+		false,
+		false,
+		nil,
+		utils.DefaultLogger,
+		protocol.Version1,
+		spec,
+	)
+	return &VerifFCConn{C: w.Conn}, nil
 }
 
 // PeerParameters: the peer's transport parameters arrive (the real handleTransportParameters; a client
